@@ -389,8 +389,10 @@ def check(tier, seed):
         for i in bad_holds[:3]:
             run.violation(dict(describe(*keep[i]), kind='assignment-invalid-or-not-optimal'))
         run.cov['traces_validated_against_impl'] = len(keep)
-        if st['broken'] and not run.violations:
-            # tie broken, no failing input among the cases: widen the search
+        if (st['broken'] or bad_corr) and not run.violations:
+            # tie broken (a proof / the model no longer builds, or the implementation left the model) and no
+            # failing input among the cases: widen the search
+            first_corr = keep[bad_corr[0]] if bad_corr else None
             for s2 in range(2):
                 more = generate('search', random.Random(seed * 1000 + s2))
                 k2, bh, bc, rp2 = run_cases(run, wd, f'search{s2}', more, st, opens)
@@ -399,19 +401,22 @@ def check(tier, seed):
                 for k, v in rp2.items():
                     repro.setdefault(k, [])
                     repro[k] += [len(keep) + x for x in v]
+                if first_corr is None and bc:
+                    first_corr = k2[bc[0]]
                 if run.violations:
                     break
             if not run.violations:
-                run.violation({'kind': 'tie-broken', 'what': st['broken']}, no_input=True)
-        elif bad_corr and not run.violations:
-            c, r = keep[bad_corr[0]]
-            run.violation(dict(describe(c, r), kind='correspondence-broken',
-                               what='corr_C15: min_weight_bipartite_matching / scipy did something else than the model '
-                                    '(outcome, matrix handed to the solver, returned dict, or the solver contract)',
-                               n_disagreeing=len(bad_corr)), no_input=True)
+                what = {'kind': 'tie-broken', 'what': st['broken']}
+                if first_corr is not None:
+                    what = dict(describe(*first_corr), kind='correspondence-broken', build=st['broken'],
+                                what='corr_C15: min_weight_bipartite_matching / scipy did something else than the model '
+                                     '(outcome, matrix handed to the solver, returned dict, or the solver contract); '
+                                     'the table above is the first disagreeing case, the property itself holds on it',
+                                n_disagreeing=len(bad_corr))
+                run.violation(what, no_input=True)
         for f in opens:
             if repro.get(f['class']):
-                run.known(f"id={f['id']} class={f['class']} reproduced_on={len(repro[f['class']])}_cases {f['what']}")
+                run.known(f"id={f['id']} class={f['class']} {f['what']}")
             else:
                 common.log(f'note: open finding {f["id"]} ({f["class"]}) did not reproduce on any case of this run')
         by_src = {}
@@ -431,7 +436,7 @@ def check(tier, seed):
         run.cov['samples'] = [c['table'] for c, _ in keep[n_corpus:n_corpus + 2]] + [c['table'] for c, _ in keep[-2:]]
         run.cov['cases_by_generator'] = by_src
         run.cov['outcomes'] = outcomes
-        run.cov['open_findings'] = [f['id'] for f in opens]
+        run.cov['open_findings'] = {f['id']: len(repro.get(f['class'], [])) for f in opens}   # id -> cases reproducing it
         run.cov['exhaustive'] = (tier == 'thorough')
         run.assumptions = ['scipy.optimize.linear_sum_assignment is an oracle: Section variable `solve` with contract '
                            '`optimal_full` (a full minimum-total assignment on dense matrices on which float64 arithmetic is '
@@ -464,12 +469,17 @@ def replay(path):
         if 'ok' in r:
             try:
                 classes = sorted({f['class'] for f in open_findings()})
-                b, err = common.coq_eval_cases(wd, 'replay', HEADER_SPEC, [case_term(case, r['ok'])],
-                                               ['bad_cases (holds_C15 [%s])' % open_term(classes),
-                                                'bad_cases (holds_C15 [])'])
+                evals = ['bad_cases (holds_C15 [%s])' % open_term(classes), 'bad_cases (holds_C15 [])']
+                if st['models_ok']:
+                    evals.append('bad_cases corr_C15')
+                b, err = common.coq_eval_cases(wd, 'replay', HEADER_MODEL if st['models_ok'] else HEADER_SPEC,
+                                               [case_term(case, r['ok'])], evals)
                 bad = bool(err) or bool(b[0])
                 if not bad and b[1]:
                     print('replay: the property fails on this input, inside an OPEN known-finding class')
+                if not bad and obj.get('kind') == 'correspondence-broken' and (not st['models_ok'] or b[2]):
+                    print('replay: the implementation still differs from the model on this input (corr_C15 false)')
+                    bad = True
             except Unrepresentable as e:
                 print('unrepresentable outcome:', e)
         if bad:
